@@ -1,8 +1,29 @@
 import GenlmModel.Model.FstOps
 import GenlmModel.Proofs.Wfsa
+import Mathlib.Data.List.Nodup
 
-/-! Correctness of the transducer models of `Model/FstOps.lean` against the path-sum specification
-`Tk` / `TPk` / `TPN` of `Model/Wfsa.lean` (any commutative semiring, any transducer). -/
+/-! Correctness of the transducer models of `Model/FstOps.lean` (mirror of `genlm/grammar/fst.py`)
+against the path-sum specification `Tk` / `TPk` / `TPN` of `Model/Wfsa.lean`
+(any commutative semiring, any transducer: ε on either tape, ε:ε arcs, cycles).
+
+* `TPNtab_spec` — the dynamic programme `TPNtab` computes `TPN`.
+* `transpose_Tk/TPk/TPN` (`FST.T`), `diag_Tk/TPk/TPN` (`FST.diag`), `fromStringT_TPk/spec`
+  (`FST.from_string`), `project_out_Qk/Pk/PN`, `project_in_Qk/Pk/PN` (`FST.project`, finite sums over
+  the candidate strings `strsLe`), `fromPairs_TPk/spec/TPN` (`FST.from_pairs`).
+* the plain product `composeRaw` (`_pruned_compose` without pruning): `composeRaw_Tk`,
+  `composeRaw_TPk` (no hypothesis on ε: product paths with `k` arcs = pairs of `k`-arc paths agreeing
+  on a middle string of length `k`), `composeRaw_TPN` (no ε on the middle tape),
+  `composeRaw_assoc_Tk`.
+* `__matmul__` (`augment`, `epsilonFilter`, two products, `unlift`): `compose_src_sum` (the arcs
+  leaving a product state are Mohri's four kinds of moves), `compose_epsfree_Tk/TPk/TPN` (no ε on the
+  middle tape: `(T1 @ T2)(x,z) = Σ_y T1(x,y)·T2(y,z)`), `compose'_Tk` (both association branches
+  agree), and the general theorem `compose_graded`, `compose_graded_init`, `compose_graded_TPk`
+  (graded path sums `GN` / `GPN`: the paths of `T1 @ T2` along which `T1` moves `k1` times and `T2`
+  moves `k2` times weigh `Σ_y T1(x,y)[k1]·T2(y,z)[k2]`, every matching pair of paths exactly once),
+  with `GN_total`, `compose_GPN_total` (summing the grades out gives `Tk` / `TPN`).
+* `totalN_eq` (stratified `total_weight`), `evalN_epsfree` (`T(x, y)` on transducers without ε).
+
+Helper lemmas live in `Genlm.FstAux`. -/
 namespace Genlm
 open WfsaAux
 
@@ -3325,6 +3346,413 @@ theorem compose_GPN_total (T1 : FST ι σ K) (T2 : FST κ σ K) (N : Nat) (x z :
 
 end ComposeAccept
 
+/-! ### the candidate lists `strsEq`, `strsLe` enumerate without repetition -/
+section Cands
+variable {σ : Type} [DecidableEq σ]
+
+omit [DecidableEq σ] in
+theorem mem_strsEq (syms : List σ) (k : Nat) (y : List σ) :
+    y ∈ strsEq syms k ↔ y.length = k ∧ ∀ a ∈ y, a ∈ syms := by
+  induction k generalizing y with
+  | zero =>
+    simp only [strsEq, List.mem_singleton, List.length_eq_zero_iff]
+    constructor
+    · rintro rfl; simp
+    · exact fun h => h.1
+  | succ k ih =>
+    simp only [strsEq, List.mem_flatMap, List.mem_map]
+    constructor
+    · rintro ⟨a, ha, y', hy', rfl⟩
+      have := (ih y').mp hy'
+      refine ⟨by simp [this.1], ?_⟩
+      intro b hb
+      rcases List.mem_cons.mp hb with rfl | hb
+      · exact ha
+      · exact this.2 b hb
+    · rintro ⟨hl, hs⟩
+      cases y with
+      | nil => simp at hl
+      | cons a y' =>
+        refine ⟨a, hs a (by simp), y', (ih y').mpr ⟨by simpa using hl, fun b hb => hs b (by simp [hb])⟩, rfl⟩
+
+omit [DecidableEq σ] in
+theorem mem_strsLe (syms : List σ) (k : Nat) (y : List σ) :
+    y ∈ strsLe syms k ↔ y.length ≤ k ∧ ∀ a ∈ y, a ∈ syms := by
+  induction k generalizing y with
+  | zero =>
+    simp only [strsLe, List.mem_singleton, Nat.le_zero_eq, List.length_eq_zero_iff]
+    constructor
+    · rintro rfl; simp
+    · exact fun h => h.1
+  | succ k ih =>
+    simp only [strsLe, List.mem_cons, List.mem_flatMap, List.mem_map]
+    constructor
+    · rintro (rfl | ⟨a, ha, y', hy', rfl⟩)
+      · simp
+      · have := (ih y').mp hy'
+        refine ⟨by simp only [List.length_cons]; omega, ?_⟩
+        intro b hb
+        rcases List.mem_cons.mp hb with rfl | hb
+        · exact ha
+        · exact this.2 b hb
+    · rintro ⟨hl, hs⟩
+      cases y with
+      | nil => exact Or.inl rfl
+      | cons a y' =>
+        refine Or.inr ⟨a, hs a (by simp), y',
+          (ih y').mpr ⟨by simp only [List.length_cons] at hl; omega, fun b hb => hs b (by simp [hb])⟩, rfl⟩
+
+omit [DecidableEq σ] in
+theorem nodup_cons_family (syms : List σ) (hnd : syms.Nodup) (L : List (List σ)) (hL : L.Nodup) :
+    (syms.flatMap fun a => L.map fun y => a :: y).Nodup := by
+  rw [List.nodup_flatMap]
+  refine ⟨fun a _ => hL.map (fun y y' h => (List.cons.inj h).2), ?_⟩
+  refine hnd.imp ?_
+  intro a b hab
+  simp only [Function.onFun, List.disjoint_left, List.mem_map]
+  rintro y ⟨y1, _, rfl⟩ ⟨y2, _, h⟩
+  exact hab (List.cons.inj h).1.symm
+
+omit [DecidableEq σ] in
+theorem strsEq_nodup (syms : List σ) (hnd : syms.Nodup) (k : Nat) : (strsEq syms k).Nodup := by
+  induction k with
+  | zero => simp [strsEq]
+  | succ k ih => exact nodup_cons_family syms hnd _ ih
+
+omit [DecidableEq σ] in
+theorem strsLe_nodup (syms : List σ) (hnd : syms.Nodup) (k : Nat) : (strsLe syms k).Nodup := by
+  induction k with
+  | zero => simp [strsLe]
+  | succ k ih =>
+    simp only [strsLe, List.nodup_cons]
+    refine ⟨?_, nodup_cons_family syms hnd _ ih⟩
+    simp only [List.mem_flatMap, List.mem_map]
+    rintro ⟨a, _, y, _, h⟩
+    cases h
+
+/-- a sum over the candidates with a single selected string -/
+theorem sum_strsEq_ind {K : Type} [CommSemiring K] (syms : List σ) (hnd : syms.Nodup) (k : Nat)
+    (y0 : List σ) (hy0 : ∀ a ∈ y0, a ∈ syms) (F : List σ → K) :
+    ((strsEq syms k).map fun y => if y0 = y then F y else 0).sum
+      = if y0.length = k then F y0 else 0 := by
+  rw [sum_ite_eq_nodup _ (strsEq_nodup syms hnd k) y0]
+  have : (y0.length = k ∧ ∀ a ∈ y0, a ∈ syms) ↔ y0.length = k := ⟨fun h => h.1, fun h => ⟨h, hy0⟩⟩
+  simp only [mem_strsEq, this]
+
+theorem sum_strsLe_ind {K : Type} [CommSemiring K] (syms : List σ) (hnd : syms.Nodup) (k : Nat)
+    (y0 : List σ) (hy0 : ∀ a ∈ y0, a ∈ syms) (F : List σ → K) :
+    ((strsLe syms k).map fun y => if y0 = y then F y else 0).sum
+      = if y0.length ≤ k then F y0 else 0 := by
+  rw [sum_ite_eq_nodup _ (strsLe_nodup syms hnd k) y0]
+  have : (y0.length ≤ k ∧ ∀ a ∈ y0, a ∈ syms) ↔ y0.length ≤ k := ⟨fun h => h.1, fun h => ⟨h, hy0⟩⟩
+  simp only [mem_strsLe, this]
+
+end Cands
+
+namespace FstAux
+section
+variable {σ K : Type} [DecidableEq σ] [CommSemiring K]
+
+/-- `sum_strsLe_lpeel` with the same bound on both sides -/
+theorem sum_strsLe_lpeel_same (syms : List σ) (hnd : syms.Nodup) (l : Option σ)
+    (hl : ∀ a, l = some a → a ∈ syms) (m k : Nat) (hk : k + 1 ≤ m) (H : List σ → K)
+    (hH : ∀ x, k < x.length → H x = 0) :
+    ((strsLe syms m).map fun x => ((lpeel l x).map H).sum).sum = ((strsLe syms m).map H).sum := by
+  obtain ⟨m', rfl⟩ : ∃ m', m = m' + 1 := ⟨m - 1, by omega⟩
+  rw [sum_strsLe_lpeel syms hnd l hl m' H (fun x hx => hH x (by omega)),
+    sum_strsLe_succ syms m' H (fun x hx => hH x (by omega))]
+
+end
+end FstAux
+
+/-! ### `total_weight` (stratified) -/
+section Erase
+variable {ι σ K : Type} [DecidableEq ι] [DecidableEq σ] [CommSemiring K]
+
+/-- forgetting the labels sums over all label strings -/
+theorem eraseLabels_Tk (T : FST ι σ K) (sI sO : List σ) (hI : sI.Nodup) (hO : sO.Nodup)
+    (hsI : ∀ e ∈ T.arcs, ∀ a, e.inp = some a → a ∈ sI)
+    (hsO : ∀ e ∈ T.arcs, ∀ a, e.out = some a → a ∈ sO)
+    (k m : Nat) (hkm : k ≤ m) (i j : ι) :
+    Tk T.eraseLabels k i [] [] j
+      = ((strsLe sI m).map fun a => ((strsLe sO m).map fun b => Tk T k i a b j).sum).sum := by
+  induction k generalizing i with
+  | zero =>
+    have : ∀ a ∈ strsLe sI m, ((strsLe sO m).map fun b => Tk T 0 i a b j).sum
+        = if a = [] then (if i = j then (1 : K) else 0) else 0 := by
+      intro a _
+      have : ∀ b ∈ strsLe sO m, Tk T 0 i a b j
+          = if b = [] then (if i = j ∧ a = [] then (1 : K) else 0) else 0 := by
+        intro b _
+        rw [Tk_zero]
+        by_cases hb : b = [] <;> simp [hb]
+      rw [List.map_congr_left this, sum_strsLe_nil]
+      by_cases ha : a = [] <;> simp [ha]
+    rw [List.map_congr_left this, sum_strsLe_nil, Tk_zero]
+    simp
+  | succ k ih =>
+    have harcs : T.eraseLabels.arcs = T.arcs.map fun e => ⟨e.src, none, none, e.dst, e.w⟩ := rfl
+    rw [Tk_succ, harcs, List.filter_map, List.map_map]
+    simp only [Function.comp_def, lpeel_none', List.map_cons, List.map_nil, List.sum_cons,
+      List.sum_nil, add_zero, Tk_succ]
+    rw [dsum_swap1]
+    apply congrArg
+    apply List.map_congr_left
+    intro e he
+    have hmem : e ∈ T.arcs := (List.mem_filter.mp he).1
+    rw [ih (by omega) e.dst, ← List.sum_map_mul_left]
+    -- input tape
+    have h1 : ∀ a ∈ strsLe sI m, ((strsLe sO m).map fun b =>
+        ((lpeel e.inp a).map fun a' => ((lpeel e.out b).map fun b' =>
+          e.w * Tk T k e.dst a' b' j).sum).sum).sum
+        = ((lpeel e.inp a).map fun a' => ((strsLe sO m).map fun b =>
+            ((lpeel e.out b).map fun b' => e.w * Tk T k e.dst a' b' j).sum).sum).sum :=
+      fun a _ => sum_swap _ _ _
+    rw [List.map_congr_left h1,
+      sum_strsLe_lpeel_same sI hI e.inp (hsI e hmem) m k (by omega)
+        (fun a' => ((strsLe sO m).map fun b =>
+          ((lpeel e.out b).map fun b' => e.w * Tk T k e.dst a' b' j).sum).sum)
+        (fun a' ha' => sum_map_zero _ _ (fun b _ => sum_map_zero _ _ (fun b' _ => by
+          rw [Tk_inp_length T k e.dst a' b' j ha', mul_zero])))]
+    apply congrArg
+    apply List.map_congr_left
+    intro a' _
+    rw [sum_strsLe_lpeel_same sO hO e.out (hsO e hmem) m k (by omega)
+      (fun b' => e.w * Tk T k e.dst a' b' j)
+      (fun b' hb' => by rw [Tk_out_length T k e.dst a' b' j hb', mul_zero]),
+      List.sum_map_mul_left]
+
+theorem eraseLabels_TPk (T : FST ι σ K) (sI sO : List σ) (hI : sI.Nodup) (hO : sO.Nodup)
+    (hsI : ∀ e ∈ T.arcs, ∀ a, e.inp = some a → a ∈ sI)
+    (hsO : ∀ e ∈ T.arcs, ∀ a, e.out = some a → a ∈ sO) (k m : Nat) (hkm : k ≤ m) :
+    TPk T.eraseLabels k [] []
+      = ((strsLe sI m).map fun a => ((strsLe sO m).map fun b => TPk T k a b).sum).sum := by
+  simp only [TPk_eq]
+  have hs : T.eraseLabels.start = T.start ∧ T.eraseLabels.stop = T.stop := ⟨rfl, rfl⟩
+  rw [hs.1, hs.2, dsum_swap1]
+  apply congrArg
+  apply List.map_congr_left
+  intro s _
+  rw [dsum_swap1]
+  apply congrArg
+  apply List.map_congr_left
+  intro f _
+  rw [eraseLabels_Tk T sI sO hI hO hsI hsO k m hkm]
+  simp only [← List.sum_map_mul_left, ← List.sum_map_mul_right]
+
+/-- **`total_weight`, stratified**: the total weight of the accepting paths with at most `n` arcs is
+the sum of `TPN` over all pairs of strings (of length `≤ n` over any duplicate-free alphabets
+containing the symbols of the machine) -/
+theorem totalN_eq (T : FST ι σ K) (sI sO : List σ) (hI : sI.Nodup) (hO : sO.Nodup)
+    (hsI : ∀ e ∈ T.arcs, ∀ a, e.inp = some a → a ∈ sI)
+    (hsO : ∀ e ∈ T.arcs, ∀ a, e.out = some a → a ∈ sO) (n : Nat) :
+    T.totalN n = ((strsLe sI n).map fun a => ((strsLe sO n).map fun b => TPN T n a b).sum).sum := by
+  unfold FST.totalN
+  simp only [TPN_eq]
+  rw [dsum_swap1]
+  apply congrArg
+  apply List.map_congr_left
+  intro k hk
+  exact eraseLabels_TPk T sI sO hI hO hsI hsO k n (by have := List.mem_range.mp hk; omega)
+
+end Erase
+
+/-! ### `__call__(x, y)` on transducers without ε -/
+section Eval
+variable {ι κ σ K : Type} [DecidableEq ι] [DecidableEq κ] [DecidableEq σ] [CommSemiring K]
+
+omit [CommSemiring K] [DecidableEq σ] in
+theorem fromStringT_arcs_ne [One K] (s : List σ) (w : K) :
+    ∀ e ∈ (FST.fromString s w : FST _ σ K).arcs, e.inp ≠ none ∧ e.out ≠ none := by
+  intro e he
+  simp only [FST.fromString, FST.diag, WFSA.fromString, List.mem_map, List.mem_flatMap,
+    List.mem_range] at he
+  obtain ⟨a, ⟨i, _, hi⟩, rfl⟩ := he
+  cases h : s[i]? with
+  | none => simp [h] at hi
+  | some c =>
+    simp only [h, List.mem_singleton] at hi
+    subst hi
+    simp
+
+/-- the arcs of `T1 @ T2` write a symbol as soon as those of `T1` and `T2` do -/
+theorem compose_out_ne (T1 : FST ι σ K) (T2 : FST κ σ K)
+    (h1 : ∀ e ∈ T1.arcs, e.out ≠ none) (h2 : ∀ e ∈ T2.arcs, e.out ≠ none) :
+    ∀ e ∈ (T1.compose T2).arcs, e.out ≠ none := by
+  intro e he
+  simp only [FST.compose, FST.composeL, FST.unlift, List.mem_filterMap] at he
+  obtain ⟨eC, heC, hu⟩ := he
+  simp only [FST.composeRaw, List.mem_flatMap, List.mem_map, List.mem_filter] at heC
+  obtain ⟨eL, ⟨e1', he1', eF, ⟨heF, hmF⟩, rfl⟩, e2', ⟨he2', hm2⟩, rfl⟩ := heC
+  simp only [decide_eq_true_eq] at hmF hm2
+  -- the arc of `T2.augment 1`
+  simp only [FST.augment, List.mem_flatMap, List.mem_cons, List.mem_map, List.mem_filter] at he2'
+  obtain ⟨q, _, he2'⟩ := he2'
+  rcases he2' with rfl | ⟨e2, ⟨he2, _⟩, rfl⟩
+  · -- the loop `ε₂:ε` needs an `ε₂` written by the filter, hence by `T1.augment 0`
+    exfalso
+    simp only [augLoop, if_true] at hm2
+    have hFout : eF.out = some ESym.e2 := hm2.2.symm
+    have hFin : eF.inp = some ESym.e2 := by
+      simp only [epsilonFilter, List.mem_append, List.mem_flatMap, List.mem_cons,
+        List.not_mem_nil, or_false] at heF
+      rcases heF with ⟨a, _, rfl | rfl | rfl⟩ | rfl | rfl | rfl | rfl | rfl <;>
+        first
+          | rfl
+          | (exact absurd hFout (lift_ne_e2 a))
+          | (exact absurd hFout (by simp))
+    simp only [FST.augment, List.mem_flatMap, List.mem_cons, List.mem_map, List.mem_filter] at he1'
+    obtain ⟨p, _, he1'⟩ := he1'
+    rcases he1' with rfl | ⟨e1, ⟨he1, _⟩, rfl⟩
+    · simp [augLoop, hFin] at hmF
+    · have := h1 e1 he1
+      cases ho : e1.out with
+      | none => exact this ho
+      | some b => simp [augArc, ho, hFin] at hmF
+  · have := h2 e2 he2
+    cases ho : e2.out with
+    | none => exact absurd ho this
+    | some c =>
+      simp only [TArc.unlift, augArc, if_true, ho, ESym.lift, Option.map_some] at hu
+      rcases hinp : e1'.inp with _ | a | _ | _ <;> simp only [hinp, ESym.unlift] at hu
+      · rw [← Option.some.inj hu]; simp
+      · rw [← Option.some.inj hu]; simp
+      · cases hu
+      · cases hu
+
+end Eval
+
+section EvalThm
+variable {ι σ K : Type} [DecidableEq ι] [DecidableEq σ] [CommSemiring K]
+
+/-- product with a single-string transducer on the right -/
+theorem composeRaw_fromString_right (A : FST ι σ K) (y0 : List σ) (w : K) (k : Nat) (a b : List σ) :
+    TPk (A.composeRaw (FST.fromString y0 w)) k a b
+      = if k = y0.length ∧ b = y0 then TPk A k a y0 * w else 0 := by
+  have hnd : ((A.outSyms ++ y0).eraseDups).Nodup := nodup_eraseDups _
+  have hs : ∀ e ∈ A.arcs, ∀ c, e.out = some c → c ∈ (A.outSyms ++ y0).eraseDups := by
+    intro e he c hc
+    rw [List.mem_eraseDups, List.mem_append]
+    exact Or.inl (out_mem_outSyms A e he c hc)
+  have hy0 : ∀ c ∈ y0, c ∈ (A.outSyms ++ y0).eraseDups := by
+    intro c hc
+    rw [List.mem_eraseDups, List.mem_append]
+    exact Or.inr hc
+  rw [composeRaw_TPk A _ _ hnd hs]
+  simp only [fromStringT_TPk]
+  have : ∀ y ∈ strsEq ((A.outSyms ++ y0).eraseDups) k,
+      TPk A k a y * (if k = y0.length ∧ y = y0 ∧ b = y0 then w else 0)
+      = if y0 = y then (if k = y0.length ∧ b = y0 then TPk A k a y * w else 0) else 0 := by
+    intro y _
+    by_cases hy : y0 = y
+    · subst hy; simp
+    · have : ¬ (y = y0) := fun h => hy h.symm
+      simp [hy, this]
+  rw [List.map_congr_left this, sum_strsEq_ind _ hnd k y0 hy0]
+  by_cases hk : k = y0.length
+  · simp [hk]
+  · have : ¬ (y0.length = k) := fun h => hk h.symm
+    simp [hk, this]
+
+/-- product with a single-string transducer on the left -/
+theorem composeRaw_fromString_left {κ : Type} [DecidableEq κ] (B : FST κ σ K) (x0 : List σ) (w : K)
+    (k : Nat) (a b : List σ) :
+    TPk ((FST.fromString x0 w).composeRaw B) k a b
+      = if k = x0.length ∧ a = x0 then w * TPk B k x0 b else 0 := by
+  have hnd : (((FST.fromString x0 w : FST _ σ K).outSyms ++ x0).eraseDups).Nodup := nodup_eraseDups _
+  have hs : ∀ e ∈ (FST.fromString x0 w : FST _ σ K).arcs, ∀ c, e.out = some c →
+      c ∈ ((FST.fromString x0 w : FST _ σ K).outSyms ++ x0).eraseDups := by
+    intro e he c hc
+    rw [List.mem_eraseDups, List.mem_append]
+    exact Or.inl (out_mem_outSyms _ e he c hc)
+  have hx0 : ∀ c ∈ x0, c ∈ ((FST.fromString x0 w : FST _ σ K).outSyms ++ x0).eraseDups := by
+    intro c hc
+    rw [List.mem_eraseDups, List.mem_append]
+    exact Or.inr hc
+  rw [composeRaw_TPk _ B _ hnd hs]
+  simp only [fromStringT_TPk]
+  have : ∀ y ∈ strsEq (((FST.fromString x0 w : FST _ σ K).outSyms ++ x0).eraseDups) k,
+      (if k = x0.length ∧ a = x0 ∧ y = x0 then w else 0) * TPk B k y b
+      = if x0 = y then (if k = x0.length ∧ a = x0 then w * TPk B k y b else 0) else 0 := by
+    intro y _
+    by_cases hy : x0 = y
+    · subst hy; simp
+    · have : ¬ (y = x0) := fun h => hy h.symm
+      simp [hy, this]
+  rw [List.map_congr_left this, sum_strsEq_ind _ hnd k x0 hx0]
+  by_cases hk : k = x0.length
+  · simp [hk]
+  · have : ¬ (x0.length = k) := fun h => hk h.symm
+    simp [hk, this]
+
+/-- **`T(x, y)` on a transducer without ε**: the stratified total weight of
+`from_string x @ T @ from_string y` is the stratified weight of `(x, y)` in `T` -/
+theorem evalN_epsfree (T : FST ι σ K) (hin : ∀ e ∈ T.arcs, e.inp ≠ none)
+    (hout : ∀ e ∈ T.arcs, e.out ≠ none) (x0 y0 : List σ) (n : Nat) :
+    T.evalN x0 y0 n = TPN T n x0 y0 := by
+  have hX := fromStringT_arcs_ne (K := K) x0 1
+  have hY := fromStringT_arcs_ne (K := K) y0 1
+  have hM1 := compose_out_ne (FST.fromString x0 (1 : K)) T (fun e he => (hX e he).2) hout
+  -- exact-length accepting weights of the three-way composition
+  have hTPk : ∀ k a b,
+      TPk (((FST.fromString x0 (1 : K)).compose T).compose (FST.fromString y0 (1 : K))) k a b
+        = if (k = y0.length ∧ b = y0) ∧ (k = x0.length ∧ a = x0) then TPk T k x0 y0 else 0 := by
+    intro k a b
+    rw [compose_epsfree_TPk _ _ hM1 (fun e he => (hY e he).1), composeRaw_fromString_right,
+      compose_epsfree_TPk _ _ (fun e he => (hX e he).2) hin, composeRaw_fromString_left]
+    by_cases h1 : k = y0.length ∧ b = y0 <;> by_cases h2 : k = x0.length ∧ a = x0 <;>
+      simp [h1, h2]
+  unfold FST.evalN
+  set M := ((FST.fromString x0 (1 : K)).compose T).compose (FST.fromString y0 (1 : K)) with hM
+  have hI : ((M.inSyms ++ x0).eraseDups).Nodup := nodup_eraseDups _
+  have hO : ((M.outSyms ++ y0).eraseDups).Nodup := nodup_eraseDups _
+  rw [totalN_eq M _ _ hI hO
+    (fun e he a ha => by
+      rw [List.mem_eraseDups, List.mem_append]; exact Or.inl (inp_mem_inSyms M e he a ha))
+    (fun e he a ha => by
+      rw [List.mem_eraseDups, List.mem_append]; exact Or.inl (out_mem_outSyms M e he a ha))]
+  simp only [TPN_eq, hTPk]
+  rw [dsum_swap1]
+  apply congrArg
+  apply List.map_congr_left
+  intro k hk
+  have hk' : k ≤ n := by have := List.mem_range.mp hk; omega
+  -- collapse the two sums
+  have hb : ∀ a ∈ strsLe ((M.inSyms ++ x0).eraseDups) n,
+      ((strsLe ((M.outSyms ++ y0).eraseDups) n).map fun b =>
+        if (k = y0.length ∧ b = y0) ∧ (k = x0.length ∧ a = x0) then TPk T k x0 y0 else 0).sum
+      = if x0 = a then
+          (if y0.length ≤ n then (if k = y0.length ∧ k = x0.length then TPk T k x0 y0 else 0) else 0)
+        else 0 := by
+    intro a _
+    have : ∀ b ∈ strsLe ((M.outSyms ++ y0).eraseDups) n,
+        (if (k = y0.length ∧ b = y0) ∧ (k = x0.length ∧ a = x0) then TPk T k x0 y0 else 0)
+        = if y0 = b then (if x0 = a then
+            (if k = y0.length ∧ k = x0.length then TPk T k x0 y0 else 0) else 0) else 0 := by
+      intro b _
+      by_cases hb : y0 = b
+      · subst hb
+        by_cases ha : x0 = a
+        · subst ha; simp
+        · have : ¬ (a = x0) := fun h => ha h.symm
+          simp [ha, this]
+      · have : ¬ (b = y0) := fun h => hb h.symm
+        simp [hb, this]
+    rw [List.map_congr_left this, sum_strsLe_ind _ hO n y0 (fun c hc => by
+      rw [List.mem_eraseDups, List.mem_append]; exact Or.inr hc)]
+    by_cases ha : x0 = a <;> simp [ha]
+  rw [List.map_congr_left hb, sum_strsLe_ind _ hI n x0 (fun c hc => by
+    rw [List.mem_eraseDups, List.mem_append]; exact Or.inr hc)]
+  by_cases h1 : k = x0.length
+  · by_cases h2 : k = y0.length
+    · simp [h1.symm, h2.symm, hk']
+    · rw [TPk_out_length_eq T hout k x0 y0 h2]
+      simp
+  · rw [TPk_inp_length_eq T hin k x0 y0 h1]
+    simp
+
+end EvalThm
+
 /-! ### non-vacuity examples (weights in `ℕ`) -/
 
 /-- no output-ε arc; an input-ε arc closing a cycle -/
@@ -3367,5 +3795,13 @@ def exU2 : FST Nat Nat Nat :=
 example : GPN (exU1.compose exU2) mohriGrade 3 1 2 [7] [1, 4] = 60 := by decide +kernel
 example : ((strsLe exU1.outSyms 1).map fun y => TPk exU1 1 [7] y * TPk exU2 2 y [1, 4]).sum = 60 := by
   decide +kernel
+
+/-- no ε on either tape -/
+def exE : FST Nat Nat Nat :=
+  ⟨[(0, 1)], [(1, 2)], [⟨0, some 7, some 8, 1, 3⟩, ⟨1, some 7, some 9, 1, 5⟩]⟩
+
+example : (∀ e ∈ exE.arcs, e.inp ≠ none) ∧ (∀ e ∈ exE.arcs, e.out ≠ none) := by decide
+example : exE.evalN [7, 7] [8, 9] 2 = 30 := by decide +kernel
+example : TPN exE 2 [7, 7] [8, 9] = 30 := by decide
 
 end Genlm
